@@ -8,3 +8,6 @@ static inline iora_blob blobFromEntry(iora_entry e, iora_sv path) { (void)path; 
 
 typedef struct { iora_path root; iora_path templatesRoot; iora_path staticsRoot; bool perRequestRead; int mutex; iora_scache staticCache; iora_tcache templateCache; } FsState;
 typedef struct { Mode _mode; const void *_registry; FsState *_fs; } Assets;
+
+/* callees that are not extracted into this unit: body-less, replaced by their contracts (post.c) */
+iora_optstr Assets_readFile(const iora_path *p);
